@@ -65,6 +65,11 @@ pub trait Harness {
 
 #[derive(Clone, Debug)]
 pub struct Budget {
+    /// extra seed-dependent starting points (besides the generic one)
+    pub starts: u64,
+    /// solver-sampled mode: do not flip branches and do not attempt the class query (each run is only evaluated on its
+    /// solver-chosen input; classes are reported as unknown, never as proven)
+    pub sample_only: bool,
     pub max_classes: usize,
     pub max_secs: f64,
     pub query_ms: u64,
@@ -265,6 +270,58 @@ impl Explorer {
         }
         // a small seed-dependent preference so that different seeds start from different corners
         let _ = seed;
+        if budget.sample_only {
+            // solver-sampled mode: inputs are chosen by the solver inside the box (seed-dependent residue hints), the real code
+            // runs on them concretely (BigInt instantiation and generic path) and only the concrete obligations are judged.
+            use std::hash::{Hash, Hasher};
+            let input_names: Vec<String> = specs.iter().map(|s| s.name.clone()).collect();
+            let mut skipped = 0usize;
+            for k in 0..budget.starts {
+                if t0.elapsed().as_secs_f64() > budget.max_secs {
+                    break;
+                }
+                let z = &mut self.z3;
+                z.push();
+                for (i, n) in input_names.iter().enumerate() {
+                    let mut hh = std::collections::hash_map::DefaultHasher::new();
+                    (seed, k, i as u64, res.id.as_str()).hash(&mut hh);
+                    z.assert(&format!("(= (mod {} 7) {})", n, hh.finish() % 7));
+                }
+                let r = z.check_model(&input_names);
+                z.pop();
+                let (Answer::Sat, Some(m)) = r else { continue };
+                let model: Vec<BigInt> = input_names.iter().map(|n| m.get(n).cloned().unwrap_or_else(BigInt::zero)).collect();
+                let pairs: Vec<(String, String)> = input_names.iter().cloned().zip(model.iter().map(|v| v.to_string())).collect();
+                // inputs violating the precondition are skipped (run_native reports them as "no verdict")
+                match run_native(h, &model) {
+                    Err(m) if m.contains(NATIVE_PRE_FAIL) => {
+                        skipped += 1;
+                        continue;
+                    }
+                    _ => {}
+                }
+                res.classes += 1;
+                res.unknown_classes += 1;
+                if let Some(w) = native_verdict(h, &model) {
+                    res.violations.push(Violation { harness: h.id(), what: w, inputs: pairs.clone() });
+                    if res.violations.len() >= 2 {
+                        break;
+                    }
+                }
+                if res.samples.len() < 3 {
+                    res.samples.push(json!({"engine": "S", "harness": h.id(), "mode": "solver-sampled input, concrete run", "model": pairs.iter().map(|(a, b)| format!("{}={}", a, b)).collect::<Vec<_>>().join(" ")}));
+                }
+            }
+            self.z3.pop();
+            res.stop_reason = format!("solver-sampled mode: {} inputs executed concretely ({} skipped by the precondition); nothing is claimed beyond these inputs", res.classes, skipped);
+            res.queries = self.z3.queries - q0.0;
+            res.sat = self.z3.sat - q0.1;
+            res.unsat = self.z3.unsat - q0.2;
+            res.unknown = self.z3.unknown - q0.3;
+            res.solver_s = (self.z3.time - q0.4).as_secs_f64();
+            res.wall_s = t0.elapsed().as_secs_f64();
+            return res;
+        }
         // ---- Pre: extracted once, symbolically (ring operations on the inputs only)
         let zeros: Vec<BigInt> = specs.iter().map(|_| BigInt::zero()).collect();
         self.run_counter += 1;
@@ -326,6 +383,26 @@ impl Explorer {
                 Some(m) => work.push_back(Item { model: input_names.iter().map(|n| m.get(n).cloned().unwrap_or_else(BigInt::zero)).collect(), bound: 0, expected: vec![] }),
                 None => res.errors.push("could not read model".into()),
             },
+        }
+        // a few more, seed-dependent starting points (each input pinned to a pseudo-random residue mod 5): they only
+        // matter for budget-limited configurations, where they spread the explored classes over the box
+        if !work.is_empty() {
+            use std::hash::{Hash, Hasher};
+            for k in 0..budget.starts {
+                let z = &mut self.z3;
+                z.push();
+                for (i, n) in input_names.iter().enumerate() {
+                    let mut hh = std::collections::hash_map::DefaultHasher::new();
+                    (seed, k, i as u64, res.id.as_str()).hash(&mut hh);
+                    let r = hh.finish() % 5;
+                    z.assert(&format!("(= (mod {} 5) {})", n, r));
+                }
+                let r = z.check_model(&input_names);
+                z.pop();
+                if let (Answer::Sat, Some(m)) = r {
+                    work.push_back(Item { model: input_names.iter().map(|n| m.get(n).cloned().unwrap_or_else(BigInt::zero)).collect(), bound: 0, expected: vec![] });
+                }
+            }
         }
         let mut stopped_early = false;
         // alternate between the shallowest and the deepest pending flip
@@ -449,7 +526,7 @@ impl Explorer {
                         need(z, mx, &mut declared, &mut defs_done);
                     }
                 }
-                if i >= bound {
+                if i >= bound && !budget.sample_only {
                     // all outcomes seen so far at this position under this exact prefix (binary tests: the atom and,
                     // later, its negation; multiway tests / concretisations: one atom per explored value)
                     let ph = hash_atoms(&rec.pc, i);
@@ -554,6 +631,10 @@ impl Explorer {
             }
             // ---- class query: Def ∧ PC ∧ ¬P   (all of PC is asserted in the current frame)
             let mut class_smt: Option<String> = None;
+            if class_status == "proven" && budget.sample_only && !open.is_empty() {
+                res.unknown_classes += 1;
+                class_status = "sampled-only";
+            }
             if class_status == "proven" {
                 if open.is_empty() {
                     res.trivial += 1;
